@@ -53,10 +53,10 @@ theorem stmt_ok : ∀ (s : PyStmt), WFS s → isHandler s = false → StmtOK s
       simp only [WFS] at h
       obtain ⟨_, hb0, hbe, hk, hke, hb, hnh, hd, rfl⟩ := h
       exact class_ok name bases kws body decos hb0 hbe hk hke hd (block_ok body hb hnh)
-  | .delete _, h, _ => by simp [WFS] at h
+  | .delete _, h, _ => simple_stmt_ok _ h rfl
   | .global_ _, h, _ => by simp [WFS] at h
-  | .import_ _, h, _ => by simp [WFS] at h
-  | .importFrom _ _ _, h, _ => by simp [WFS] at h
+  | .import_ _, h, _ => simple_stmt_ok _ h rfl
+  | .importFrom _ _ _, h, _ => simple_stmt_ok _ h rfl
   | .unsupported _, h, _ => by simp [WFS] at h
 theorem handler_ok : ∀ (s : PyStmt), WFS s → isHandler s = true → HandlerOK1 s
   | .handler t n b, h, _ => by
@@ -180,10 +180,10 @@ theorem szS_le : ∀ (s : PyStmt), WFS s → ∀ ind, szS s + 2 ≤ 8 * (genStmt
       have h1 := szSL_le body h.2.2.2.2.2.1 (ind + 1)
       simp only [szS, genStmt, List.length_cons, List.length_append]
       omega
-  | .delete _, h, _ => by simp [WFS] at h
+  | .delete _, h, ind => simple_len _ h rfl ind
   | .global_ _, h, _ => by simp [WFS] at h
-  | .import_ _, h, _ => by simp [WFS] at h
-  | .importFrom _ _ _, h, _ => by simp [WFS] at h
+  | .import_ _, h, ind => simple_len _ h rfl ind
+  | .importFrom _ _ _, h, ind => simple_len _ h rfl ind
   | .unsupported _, h, _ => by simp [WFS] at h
 theorem szSL_le : ∀ (ss : List PyStmt), WFSL ss → ∀ ind, szSL ss ≤ 8 * (genBody ind ss).length + 1
   | [], _, _ => by simp [szSL]
@@ -225,6 +225,11 @@ theorem hvS :
     ∧ hasVisitor cs!"If" = true ∧ hasVisitor cs!"While" = true ∧ hasVisitor cs!"For" = true
     ∧ hasVisitor cs!"With" = true ∧ hasVisitor cs!"Try" = true ∧ hasVisitor cs!"ExceptHandler" = true
     ∧ hasVisitor cs!"FunctionDef" = true ∧ hasVisitor cs!"ClassDef" = true ∧ hasVisitor cs!"arguments" = true := by
+  decide
+
+theorem hvS2 :
+    hasVisitor cs!"Delete" = true ∧ hasVisitor cs!"Import" = true ∧ hasVisitor cs!"ImportFrom" = true
+    ∧ hasVisitor cs!"alias" = true := by
   decide
 
 mutual
@@ -275,10 +280,20 @@ theorem wfs_genOk : ∀ (s : PyStmt), WFS s → genOkS s = true
       simp only [WFS] at h
       obtain ⟨_, hb0, _, hk, _, hb, _, hd, _⟩ := h
       simp [genOkS, hvS, wf_genOkL bases hb0, wf_genOkL kws hk, wfsl_genOk body hb, genOkList_sup decos hd]
-  | .delete _, h => by simp [WFS] at h
+  | .delete ts, h => by
+      simp only [WFS] at h
+      have : ts.isEmpty = false := by cases ts <;> simp_all
+      simp [genOkS, hvS2, this, genOkList_sup ts h.2]
   | .global_ _, h => by simp [WFS] at h
-  | .import_ _, h => by simp [WFS] at h
-  | .importFrom _ _ _, h => by simp [WFS] at h
+  | .import_ ns, h => by
+      simp only [WFS] at h
+      have : ns.isEmpty = false := by cases ns <;> simp_all
+      simp [genOkS, hvS2, this]
+  | .importFrom m ns _, h => by
+      simp only [WFS] at h
+      obtain ⟨⟨mod, rfl, _⟩, hne⟩ := h
+      have : ns.isEmpty = false := by cases ns <;> simp_all
+      simp [genOkS, hvS2, this]
   | .unsupported _, h => by simp [WFS] at h
 theorem wfsl_genOk : ∀ (ss : List PyStmt), WFSL ss → genOkBody ss = true
   | [], _ => rfl
